@@ -111,7 +111,8 @@ JudgeC18(run) ==
         upd(k) == {i \in 1..Len(run.steps) : run.steps[i].a.a = "StateUpdate" /\ SkiOfConn(run, run.steps[i].a.i) = k}
         stablePoint(k) == finReg(k) = 0 \/ \E i \in upd(k) : run.steps[i].a.i = finReg(k)
         b2 == {<<"C18", "last-notification-not-current-state", k, lastOf(k), run.final[k]>> :
-                 k \in {k \in Skis : lastOf(k) # "" /\ Len(run.steps) > 0 /\ stablePoint(k) /\ lastOf(k) # run.final[k]
+                 \* (a service whose details were stored and that got no notification at all has "" as its last one)
+                 k \in {k \in Skis : (lastOf(k) # "" \/ \E j \in 1..Len(run.stored) : run.stored[j].ski = k) /\ Len(run.steps) > 0 /\ stablePoint(k) /\ lastOf(k) # run.final[k]
                                      /\ (NConnOf(run, k) = 1 \/ finReg(k) # 0)
                                      /\ \A i \in 1..Len(run.steps) :       \* no synchronous note for k after the last stored detail
                                            ~(run.steps[i].a.a \in {"Unregister", "Cancel", "Register"} /\ run.steps[i].a.k = k)}}
